@@ -120,6 +120,41 @@ def tcp_session(cls, segments, rec, keep=False, clock=None, gaps=None):
   return out
 
 
+def tcp_sessions_interleaved(cls, plans, order, rec, close_after=None):
+  """Several clients of one listener at the same time.  plans[k] = the segments of connection k; order = sequence of
+  connection indices saying whose next segment is read next (a connection is made when its first segment is due);
+  close_after = {k: n}: connection k goes away (cleanly) after n of its segments.  Returns dict(got, exc)."""
+  _hook_reactor()
+  del _zero_calls[:]
+  rec.take()
+  protos, pos, exc = {}, {}, None
+  close_after = close_after or {}
+  try:
+    for k in order:
+      if pos.get(k, 0) >= len(plans[k]) or (k in close_after and pos.get(k, 0) >= close_after[k]):
+        continue
+      if k not in protos:
+        p = cls()
+        p.makeConnection(StringTransport())
+        protos[k] = p
+        pos[k] = 0
+      p = protos[k]
+      if p.transport.disconnecting:
+        continue
+      p.dataReceived(plans[k][pos[k]])
+      pos[k] += 1
+      run_due_reactor_calls(())
+      if k in close_after and pos[k] >= close_after[k]:
+        close(p)
+  except Exception as e:
+    exc = e
+  got = rec.take()
+  for k, p in protos.items():
+    if not (k in close_after and pos.get(k, 0) >= close_after[k]):
+      close(p)
+  return dict(got=got + rec.take(), exc=exc)
+
+
 def tcp_session_with_pause(cls, segments, rec, at):
   """Like tcp_session, but the receivers are paused (flow control: cache or relay queues full) when the at-th datapoint of
   the session is handed over, and resumed after the segment in which that happened.  Everything that had arrived must still
